@@ -21,6 +21,9 @@ import (
 	"github.com/oasisprotocol/oasis-core/go/common/crypto/signature"
 	memorySigner "github.com/oasisprotocol/oasis-core/go/common/crypto/signature/signers/memory"
 	"github.com/oasisprotocol/oasis-core/go/common/crypto/tuplehash"
+	"github.com/oasisprotocol/oasis-core/go/common/logging"
+	"github.com/oasisprotocol/oasis-core/go/common/version"
+	registry "github.com/oasisprotocol/oasis-core/go/registry/api"
 	"github.com/oasisprotocol/oasis-core/go/common/node"
 	"github.com/oasisprotocol/oasis-core/go/common/sgx"
 	"github.com/oasisprotocol/oasis-core/go/common/sgx/pcs"
@@ -57,7 +60,18 @@ type CapD struct {
 	AttHeight    uint64  `json:"att_height"`
 	Sig          string  `json:"sig"`
 }
+type DepD struct {
+	Version [3]uint16 `json:"version"`
+	Kind    string    `json:"kind"` // case: the case's constraints; other: same policy, foreign enclave list; malformed; nil: no TEE field
+}
+type RegD struct {
+	RtHW        uint8     `json:"rt_hw"`
+	NodeVersion [3]uint16 `json:"node_version"`
+	Deps        []DepD    `json:"deps"`
+	NoTEE       bool      `json:"no_tee,omitempty"`
+}
 type NodeD struct {
+	Reg         RegD   `json:"reg"`
 	Fam         string `json:"fam"`
 	Note        string `json:"note,omitempty"`
 	Inner       CaseD  `json:"inner"` // the PCS bundle, verification time and process switches
@@ -102,6 +116,8 @@ func optPolicyCoq(has bool, p *PolicyD) string {
 }
 
 type nodeResult struct {
+	rcode  int
+	rerr   string
 	code   int
 	errStr string
 	term   string
@@ -163,6 +179,64 @@ func tupleHash(t [][]byte) []byte {
 	return h.Sum(nil)
 }
 
+// buildCons serialises constraints with the real CBOR code.
+func buildCons(cd ConsD) []byte {
+	if cd.Malformed {
+		return []byte{0xff, 0x01}
+	}
+	sc := node.SGXConstraints{Versioned: cbor.NewVersioned(cd.V), MaxAttestationAge: cd.MaxAge}
+	for _, e := range cd.Enclaves {
+		var id sgx.EnclaveIdentity
+		copy(id.MrEnclave[:], unhex(e[0]))
+		copy(id.MrSigner[:], unhex(e[1]))
+		sc.Enclaves = append(sc.Enclaves, id)
+	}
+	if cd.HasPolicy {
+		sc.Policy = &quote.Policy{}
+		if cd.Policy != nil {
+			sc.Policy.PCS = cd.Policy.real()
+		}
+	}
+	return cbor.Marshal(sc)
+}
+
+// consTerm renders what the real CBOR decoder delivers for the serialised constraints (the model's input).
+func consTerm(scBytes []byte, cd ConsD) string {
+	var sc2 node.SGXConstraints
+	if cbor.Unmarshal(scBytes, &sc2) != nil { // note: nil input decodes to the zero value (cbor.go:98-101)
+		return "None"
+	}
+	var encl []string
+	for _, id := range sc2.Enclaves {
+		encl = append(encl, fmt.Sprintf("(%s, %s)", hxBytes(id.MrEnclave[:]), hxBytes(id.MrSigner[:])))
+	}
+	pol := "None"
+	if sc2.Policy != nil {
+		pp := "None"
+		if sc2.Policy.PCS != nil {
+			pp = "(Some " + cd.Policy.coq() + ")"
+		}
+		pol = fmt.Sprintf("(Some (mkQP %s %s))", coqout.Bool(sc2.Policy.IAS != nil), pp)
+	}
+	return fmt.Sprintf("(Some (mkSC %d [%s] %s %d))", sc2.V, strings.Join(encl, "; "), pol, sc2.MaxAttestationAge)
+}
+
+func depCons(n NodeD, d DepD) (ConsD, []byte) {
+	cd := n.Constraints
+	switch d.Kind {
+	case "other":
+		cd.Malformed = false
+		cd.Enclaves = [][2]string{{strings.Repeat("ab", 32), strings.Repeat("cd", 32)}}
+	case "malformed":
+		cd.Malformed = true
+	case "nil":
+		return cd, nil
+	}
+	return cd, buildCons(cd)
+}
+
+var regLogger = logging.GetLogger("verif/pcs")
+
 func evalNode(n NodeD) (res nodeResult) {
 	defer func() {
 		if e := recover(); e != nil {
@@ -201,27 +275,7 @@ func evalNode(n NodeD) (res nodeResult) {
 		}
 		attBytes = cbor.Marshal(sa)
 	}
-	var scBytes []byte
-	var encl []string
-	if n.Constraints.Malformed {
-		scBytes = []byte{0xff, 0x01}
-	} else {
-		sc := node.SGXConstraints{Versioned: cbor.NewVersioned(n.Constraints.V), MaxAttestationAge: n.Constraints.MaxAge}
-		for _, e := range n.Constraints.Enclaves {
-			var id sgx.EnclaveIdentity
-			copy(id.MrEnclave[:], unhex(e[0]))
-			copy(id.MrSigner[:], unhex(e[1]))
-			sc.Enclaves = append(sc.Enclaves, id)
-			encl = append(encl, fmt.Sprintf("(%s, %s)", hxBytes(id.MrEnclave[:]), hxBytes(id.MrSigner[:])))
-		}
-		if n.Constraints.HasPolicy {
-			sc.Policy = &quote.Policy{}
-			if n.Constraints.Policy != nil {
-				sc.Policy.PCS = n.Constraints.Policy.real()
-			}
-		}
-		scBytes = cbor.Marshal(sc)
-	}
+	scBytes := buildCons(n.Constraints)
 	var cfg *node.TEEFeatures
 	cfgTerm := "None"
 	if !n.Cfg.Nil {
@@ -258,19 +312,7 @@ func evalNode(n NodeD) (res nodeResult) {
 		}
 		attTerm = fmt.Sprintf("(Some (mkAtt %d %s %d %s))", sa2.V, kind, sa2.Height, coqBytes(sa2.Signature[:]))
 	}
-	scTerm := "None"
-	var sc2 node.SGXConstraints
-	if cbor.Unmarshal(scBytes, &sc2) == nil {
-		pol := "None"
-		if sc2.Policy != nil {
-			pp := "None"
-			if sc2.Policy.PCS != nil {
-				pp = "(Some " + n.Constraints.Policy.coq() + ")"
-			}
-			pol = fmt.Sprintf("(Some (mkQP %s %s))", coqout.Bool(sc2.Policy.IAS != nil), pp)
-		}
-		scTerm = fmt.Sprintf("(Some (mkSC %d [%s] %s %d))", sc2.V, strings.Join(encl, "; "), pol, sc2.MaxAttestationAge)
-	}
+	scTerm := consTerm(scBytes, n.Constraints)
 
 	// ---- primitives of the node layer
 	hin := append([]byte(teeHashCtx), rak[:]...)
@@ -306,8 +348,65 @@ func evalNode(n NodeD) (res nodeResult) {
 		rekTerm = "(Some " + hxBytes(rekB) + ")"
 	}
 	capTerm := fmt.Sprintf("(mkCap %d %s %s %s)", n.Cap.Hardware, hxBytes(rak[:]), rekTerm, attTerm)
-	res.term = fmt.Sprintf("((mkNCase (mkEnv %s %s []) %s (%d)%%Z %d %s %s %s %s %s), %d)", coqout.Bool(in.Env.AllowDebug), coqout.Bool(in.Env.Lax),
-		cfgTerm, in.TsNs, n.Height, scTerm, hxBytes(nodeID[:]), coqout.Bool(n.Is261), capTerm, tables, res.code)
+	ncase := fmt.Sprintf("(mkNCase (mkEnv %s %s []) %s (%d)%%Z %d %s %s %s %s %s)", coqout.Bool(in.Env.AllowDebug), coqout.Bool(in.Env.Lax),
+		cfgTerm, in.TsNs, n.Height, scTerm, hxBytes(nodeID[:]), coqout.Bool(n.Is261), capTerm, tables)
+
+	// ---- the registry's entry point (consensus: RegisterNode with block time / last height; key manager app)
+	ver := func(v [3]uint16) version.Version { return version.Version{Major: v[0], Minor: v[1], Patch: v[2]} }
+	nrt := &node.Runtime{Version: ver(n.Reg.NodeVersion)}
+	if !n.Reg.NoTEE {
+		nrt.Capabilities.TEE = &capTEE
+	}
+	regRt := &registry.Runtime{TEEHardware: node.TEEHardware(n.Reg.RtHW)}
+	var depTerms []string
+	firstKind := ""
+	for _, d := range n.Reg.Deps {
+		cd, b := depCons(n, d)
+		regRt.Deployments = append(regRt.Deployments, &registry.VersionInfo{Version: ver(d.Version), TEE: b})
+		depTerms = append(depTerms, fmt.Sprintf("mkDep (%d, %d, %d) %s", d.Version[0], d.Version[1], d.Version[2], consTerm(b, cd)))
+		if firstKind == "" && d.Version == n.Reg.NodeVersion {
+			firstKind = d.Kind
+		}
+	}
+	rerr := registry.VerifyNodeRuntimeEnclaveIDs(regLogger, nodeID, nrt, regRt, cfg, ts, n.Height, n.Is261)
+	rerr2 := registry.VerifyNodeRuntimeEnclaveIDs(regLogger, nodeID, nrt, regRt, cfg, ts, n.Height, n.Is261)
+	res.rcode = 0
+	if rerr != nil {
+		res.rerr = rerr.Error()
+		switch {
+		case has(res.rerr, "runtime TEE.Hardware mismatches"):
+			res.rcode = 110
+		case has(res.rerr, "unknown runtime enclave version"):
+			res.rcode = 111
+		default:
+			res.rcode = classifyNode(rerr)
+		}
+	}
+	if (rerr == nil) != (rerr2 == nil) || rerr != nil && rerr.Error() != rerr2.Error() {
+		res.viol = "VerifyNodeRuntimeEnclaveIDs gave two different verdicts on identical arguments"
+	}
+	res.term = fmt.Sprintf("((mkRCase %s %d (%d, %d, %d) [%s] %s), %d)", ncase, n.Reg.RtHW, n.Reg.NodeVersion[0], n.Reg.NodeVersion[1],
+		n.Reg.NodeVersion[2], strings.Join(depTerms, "; "), coqout.Bool(n.Reg.NoTEE), res.rcode)
+	if res.rcode == 999 {
+		res.viol = "unclassified error: " + res.rerr
+	}
+	// registry-level S: what acceptance through the registry must mean
+	if res.rcode == 0 {
+		switch {
+		case n.Reg.NoTEE:
+			if n.Reg.RtHW != 0 {
+				res.viol = "node without TEE capability accepted for a runtime that requires TEE hardware"
+			}
+		case n.Cap.Hardware != n.Reg.RtHW:
+			res.viol = "capability hardware differs from the runtime's and was accepted"
+		case firstKind != "case":
+			res.viol = fmt.Sprintf("accepted although the first deployment with the node's runtime version is %q", firstKind)
+		case res.code != 0:
+			res.viol = "accepted by the registry but CapabilityTEE.Verify rejects under the same deployment: " + res.errStr
+		}
+	} else if !n.Reg.NoTEE && n.Cap.Hardware == n.Reg.RtHW && firstKind == "case" && res.rcode != res.code {
+		res.viol = fmt.Sprintf("registry verdict %d differs from CapabilityTEE.Verify verdict %d under the selected deployment", res.rcode, res.code)
+	}
 	if res.code == 999 {
 		res.viol = "unclassified error: " + res.errStr
 	}
@@ -605,13 +704,96 @@ func genNode(rng *prng.R, n int) []NodeD {
 			p0[48+320+r.Intn(64)] ^= 1
 			in.Quote.Parts[0] = lit(p0)
 		}
+		nv := [3]uint16{uint16(r.Range(0, 3)), uint16(r.Range(0, 9)), uint16(r.Range(0, 9))}
+		ov := [3]uint16{nv[0], nv[1], nv[2] + 1}
+		reg := RegD{RtHW: 1, NodeVersion: nv, Deps: []DepD{{ov, "other"}, {nv, "case"}}}
+		if cp.Hardware != 1 && r.Chance(60) {
+			reg.RtHW = cp.Hardware // so that CapabilityTEE.Verify itself reports the invalid hardware
+		}
+		switch {
+		case dev(3, "runtime-requires-no-tee"):
+			reg.RtHW = 0
+		case dev(3, "unknown-runtime-version"):
+			reg.Deps = []DepD{{ov, "case"}}
+		case dev(2, "no-deployments"):
+			reg.Deps = nil
+		case dev(3, "first-deployment-of-version-is-foreign"):
+			reg.Deps = []DepD{{nv, "other"}, {nv, "case"}}
+		case dev(3, "second-deployment-of-version-is-foreign"):
+			reg.Deps = []DepD{{nv, "case"}, {nv, "other"}}
+		case dev(2, "deployment-tee-malformed"):
+			reg.Deps = []DepD{{nv, "malformed"}, {nv, "case"}}
+		case dev(2, "deployment-without-tee-field"):
+			reg.Deps = []DepD{{nv, "nil"}}
+		case dev(2, "node-without-tee-capability"):
+			reg.NoTEE = true
+		case dev(2, "no-tee-anywhere"):
+			reg.NoTEE, reg.RtHW = true, 0
+		}
 		out = append(out, NodeD{Fam: "node", Note: strings.Join(notes, ","), Inner: in, Cfg: cfg, Height: height, Constraints: sc,
-			NodeID: hex.EncodeToString(nodeID), Is261: is261, Cap: cp})
+			NodeID: hex.EncodeToString(nodeID), Is261: is261, Cap: cp, Reg: reg})
 	}
 	return out
 }
 
-func nodeMain(seed uint64, out, replay string, n int) {
+// genNodeReal: registrations around the repository's own SGX / TDX vectors.  Their report data is not the hash of a
+// key the harness knows, so the furthest they can get is the RAK comparison; every earlier check is perturbed.
+func genNodeReal(vs []vector, rng *prng.R) []NodeD {
+	var out []NodeD
+	for _, v := range vs {
+		if !v.accept {
+			continue
+		}
+		o := origOut[v.quote]
+		raw := bases[v.quote]
+		pol := v.policy.eff()
+		tdx := pol.TDX
+		add := func(note string, f func(n *NodeD)) {
+			r := rng.Fork()
+			p := pol
+			n := NodeD{Fam: "node-real", Note: "real:" + v.name + ":" + note, Inner: v.kase("node-real"), Height: 5000, Is261: true,
+				Cfg:         CfgD{PCS: true, Signed: r.Chance(50), DefMaxAge: 100, TDX: tdx},
+				Constraints: ConsD{V: 1, HasPolicy: true, Policy: &p, MaxAge: 50, Enclaves: [][2]string{{hex.EncodeToString(o[0]), hex.EncodeToString(o[1])}}},
+				NodeID:      hex.EncodeToString(r.Bytes(32)),
+				Cap:         CapD{Hardware: 1, RAK: hex.EncodeToString(r.Bytes(32)), AttV: 1, QuoteKind: "pcs", AttHeight: 4990, Sig: hex.EncodeToString(r.Bytes(64))},
+				Reg:         RegD{RtHW: 1, NodeVersion: [3]uint16{1, 0, 0}, Deps: []DepD{{[3]uint16{1, 0, 0}, "case"}}}}
+			n.Inner.Orig = ""
+			f(&n)
+			out = append(out, n)
+		}
+		add("as-is", func(n *NodeD) {})
+		add("identity-unlisted", func(n *NodeD) { n.Constraints.Enclaves = [][2]string{{strings.Repeat("00", 32), strings.Repeat("00", 32)}} })
+		add("mrsigner-differs", func(n *NodeD) { n.Constraints.Enclaves[0][1] = strings.Repeat("11", 32) })
+		add("mrenclave-differs", func(n *NodeD) { n.Constraints.Enclaves[0][0] = strings.Repeat("11", 32) })
+		add("expired", func(n *NodeD) { n.Inner.TsNs += int64(45 * 24 * time.Hour) })
+		add("before-issue", func(n *NodeD) { n.Inner.TsNs -= int64(45 * 24 * time.Hour) })
+		add("min-eval-high", func(n *NodeD) { n.Constraints.Policy.MinEval = 1000 })
+		add("disabled", func(n *NodeD) { n.Constraints.Policy.Disabled = true })
+		add("no-policy", func(n *NodeD) { n.Constraints.HasPolicy, n.Constraints.Policy = false, nil })
+		add("policy-from-default", func(n *NodeD) {
+			p := *n.Constraints.Policy
+			n.Constraints.HasPolicy, n.Constraints.Policy = false, nil
+			n.Cfg.HasDef, n.Cfg.DefPolicy = true, &p
+		})
+		add("blacklisted", func(n *NodeD) { n.Constraints.Policy.BL = []string{parseTCBInfo(bases[v.ti]).fmspc} })
+		add("debug-mode-process", func(n *NodeD) { n.Inner.Env.AllowDebug = true })
+		add("hardware-invalid", func(n *NodeD) { n.Cap.Hardware = 0 })
+		add("runtime-no-tee", func(n *NodeD) { n.Reg.RtHW = 0 })
+		add("other-version", func(n *NodeD) { n.Reg.NodeVersion = [3]uint16{2, 0, 0} })
+		if tdx {
+			add("tdx-feature-off", func(n *NodeD) { n.Cfg.TDX = false })
+			add("tdx-policy-missing", func(n *NodeD) { n.Constraints.Policy.TDX = false })
+		}
+		sp := spans(raw)
+		for _, s := range sp { // one flipped bit in every region of the quote
+			off := s.off + rng.Intn(max(1, s.len))
+			add("bitflip:"+s.name, func(n *NodeD) { n.Inner.Quote = patched(v.quote, P(off, 1, []byte{raw[off] ^ (1 << rng.Intn(8))})) })
+		}
+	}
+	return out
+}
+
+func nodeMain(vs []vector, seed uint64, out, replay string, n int) {
 	mintInit()
 	var cases []NodeD
 	if replay != "" {
@@ -630,20 +812,28 @@ func nodeMain(seed uint64, out, replay string, n int) {
 		}
 		cases = []NodeD{c}
 	} else {
-		cases = genNode(prng.New(seed^0x6e6f6465), n)
+		rng := prng.New(seed ^ 0x6e6f6465)
+		cases = genNode(rng.Fork(), n)
+		cases = append(cases, genNodeReal(vs, rng.Fork())...)
+	}
+	results := make([]nodeResult, len(cases))
+	for _, dbg := range []bool{false, true} { // process switch phases
+		setEnv(EnvD{AllowDebug: dbg})
+		for i, c := range cases {
+			if c.Inner.Env.AllowDebug == dbg {
+				results[i] = evalNode(c)
+			}
+		}
 	}
 	setEnv(EnvD{})
-	results := make([]nodeResult, len(cases))
-	for i, c := range cases {
-		results[i] = evalNode(c)
-	}
+	internMin = max(3, len(cases)/200)
 	names, defs := map[string]string{}, []string{}
 	for i := range results {
 		results[i].term = resolveInterned(results[i].term, names, &defs)
 	}
 	hdr := resolveInterned(headerText(), names, &defs)
 	hdr = strings.Replace(hdr, "\n", "\n"+strings.Join(defs, ""), 1)
-	wb := coqout.NewWriter(out, hdr, "run_ncase", "N.eqb", max(20, (len(cases)+11)/12))
+	wb := coqout.NewWriter(out, hdr, "run_rcase", "N.eqb", min(250, max(20, (len(cases)+11)/12)))
 	sum := coqout.NewSummary("node registrations (node.CapabilityTEE.Verify) around synthetic validly-signed SGX/TDX bundles whose report data the harness chooses: report data for this / another RAK / one bit off / hash in the ignored half, enclave identity listed / not listed / half-matching, attestation height fresh / exactly max age / stale / future, RAK signature valid / by another key / over another node id, height, REK or report data, REK present / absent, signed-attestation feature on / off, policy from the runtime constraints / consensus default / nowhere, v0 constraints, malformed CBOR, wrong hardware, feature flags, expired or tampered quote; non-trivial = the embedded quote verifies (the decision is made by the node layer); distinct = distinct case descriptions")
 	seen := map[string]bool{}
 	for i, c := range cases {
@@ -655,9 +845,10 @@ func nodeMain(seed uint64, out, replay string, n int) {
 		seen[string(key)] = true
 		sum.Evaluations++
 		st := "accept"
-		if r.code != 0 {
-			st = fmt.Sprintf("reject-%d", r.code)
+		if r.rcode != 0 {
+			st = fmt.Sprintf("reject-%d", r.rcode)
 		}
+		sum.Count("family", c.Fam)
 		sum.Count("verdict", st)
 		for _, nt := range strings.Split(c.Note, ",") {
 			if nt == "" {
